@@ -863,6 +863,12 @@ fn merge_evidence(prev: J, cur: J) -> J {
 	cov.put("samples", J::Arr(samples));
 	cov.put("phase1", J::obj().set("observed", pcov.get("observed").cloned().unwrap_or(J::Null)).set("inconclusive", pcov.get("inconclusive").cloned().unwrap_or(J::Null)).set("known_findings_observed", pcov.get("known_findings_observed").cloned().unwrap_or(J::Null)));
 	out.put("coverage", cov);
+	// a check of several phases enumerates faults as soon as one of its phases does (the level
+	// in MANIFEST level_claimed.category); otherwise the phases agree
+	let fe = |j: &J| j.get("level").and_then(|x| x.as_str()) == Some("fault_enumeration");
+	if fe(&prev) || fe(&cur) {
+		out.put("level", J::s("fault_enumeration"));
+	}
 	out.put("wall_s", J::Num(num(&prev, &["wall_s"]) + num(&cur, &["wall_s"])));
 	out.put("violations", J::i((num(&prev, &["violations"]) + num(&cur, &["violations"])) as i64));
 	let mut assumptions = prev.get("assumptions").and_then(|x| x.as_arr()).cloned().unwrap_or_default();
